@@ -1,6 +1,8 @@
 // ================= shim prelude: assumed contracts on std / byteorder =================
 #[verifier::external_body] pub fn fmt_opaque_v() -> String { String::new() }
 
+pub trait FromPrimitive: Sized { spec fn fp_valid(b: u8) -> bool; spec fn fp_disc(&self) -> u8;
+    fn from_u8(n: u8) -> (r: Option<Self>) ensures match r { Some(c) => c.fp_disc() == n && Self::fp_valid(n), None => !Self::fp_valid(n) }; }
 pub struct IoError;
 pub enum IoErrorKind { UnexpectedEof, InvalidData, Other }
 impl IoError { #[verifier::external_body] pub fn new(kind: IoErrorKind, msg: &str) -> (r: IoError) { unimplemented!() } }
@@ -17,6 +19,9 @@ pub struct CborDeError;
 pub struct ParseIntError;
 pub struct TryFromSliceError;
 
+pub assume_specification<T, F: FnOnce() -> Option<T>> [Option::<T>::or_else] (o: Option<T>, f: F) -> (r: Option<T>)
+    requires o is None ==> f.requires(()),
+    ensures o is Some ==> r == o, o is None ==> f.ensures((), r);
 pub assume_specification<T: Clone> [<[T]>::to_vec] (s: &[T]) -> (r: Vec<T>) ensures r@ == s@;
 pub assume_specification<T> [<[T]>::reverse] (s: &mut [T]) ensures final(s)@ == old(s)@.reverse();
 
